@@ -222,15 +222,18 @@ def load(root=None, log=None):
     return fx
 
 
-def _prune_cache(keep, maxn=6):
+def _prune_cache(keep, maxn=12):
+    """drop old fact caches; never touch entries younger than 30 minutes (parallel runs on other trees may be writing them)"""
+    now = time.time()
     try:
         ents = [(os.path.getmtime(os.path.join(CACHE, e)), e) for e in os.listdir(CACHE)
-                if os.path.isdir(os.path.join(CACHE, e)) and e != keep]
+                if os.path.isdir(os.path.join(CACHE, e)) and e != keep and not e.startswith("fx-")]
     except OSError:
         return
     ents.sort(reverse=True)
-    for _, e in ents[maxn:]:
-        shutil.rmtree(os.path.join(CACHE, e), ignore_errors=True)
+    for mt, e in ents[maxn:]:
+        if now - mt > 1800:
+            shutil.rmtree(os.path.join(CACHE, e), ignore_errors=True)
 
 
 def load_fixture(name, log=None):
